@@ -10,6 +10,10 @@ CONSTANTS
   MaxQ = 1
   MaxId = 0
   KaVals = {}
+  XQs = {}
+  XfrIds = {}
+  XfrAll = FALSE
+  QVars = {}
   EndKinds = {}
   Frames <- MCFrames
 SPECIFICATION Spec
